@@ -82,6 +82,7 @@ const (
 	LUReg
 	LUSafe
 	LUOptLeaf
+	LUBadProto
 	// barriers: leaves with a hidden error
 	LHandled
 	LOpaque
@@ -134,6 +135,7 @@ const (
 	WFmtBare
 	WUNote
 	WUFullEmpty
+	WUBadProto
 	WStatusWrapf
 	// multi-cause
 	MJoin
@@ -273,6 +275,8 @@ func init() {
 		build: func(n *Node, _, _ []error) error { return &ULeafReg{Msg: n.S[0].V, Code: n.N[0]} }})
 	def(LUSafe, KindInfo{Slots: "NU", Name: "uLeafSafe", Groups: GUser, Weight: 3,
 		build: func(n *Node, _, _ []error) error { return &ULeafSafe{SafePart: n.S[0].V, UnsafePart: n.S[1].V} }})
+	def(LUBadProto, KindInfo{Slots: "U", Name: "uLeafBadProto", Groups: GUser, Weight: 2,
+		build: func(n *Node, _, _ []error) error { return &ULeafBadProto{Msg: n.S[0].V} }})
 	def(LUOptLeaf, KindInfo{Slots: "U", Name: "uWrapOpt(nil)", Groups: GUser, Weight: 2,
 		build: func(n *Node, _, _ []error) error { return &UWrapOpt{Msg: n.S[0].V} }})
 	// ---------------- barriers
@@ -441,6 +445,8 @@ func init() {
 		build: func(n *Node, k, _ []error) error { return &UWrapFmt{Msg: n.S[0].V, Detail: n.S[1].V, Cause: k[0]} }})
 	def(WUReg, KindInfo{Slots: "U", Name: "uWrapReg", Arity: Wrap, Groups: GUser, NInts: []int{1000},
 		build: func(n *Node, k, _ []error) error { return &UWrapReg{Msg: n.S[0].V, Code: n.N[0], Cause: k[0]} }})
+	def(WUBadProto, KindInfo{Slots: "U", Name: "uWrapBadProto", Arity: Wrap, Groups: GUser, Weight: 2,
+		build: func(n *Node, kids, _ []error) error { return &UWrapBadProto{Msg: n.S[0].V, Cause: kids[0]} }})
 	def(WUOpt, KindInfo{Slots: "U", Name: "uWrapOpt", Arity: Wrap, Groups: GUser, Weight: 2,
 		build: func(n *Node, k, _ []error) error { return &UWrapOpt{Msg: n.S[0].V, Cause: k[0]} }})
 	def(WFmtBare, KindInfo{Name: "fmt.Errorf(%w)", Arity: Wrap, Groups: GStd, Weight: 2,
